@@ -11,8 +11,8 @@ import (
 	"io"
 
 	"github.com/hyperjumptech/grule-rule-engine/ast"
-	verif "github.com/hyperjumptech/grule-rule-engine/zzverif"
 	"github.com/hyperjumptech/grule-rule-engine/zzkb"
+	verif "github.com/hyperjumptech/grule-rule-engine/zzverif"
 )
 
 // c20Reader serves data, replacing the k-th 8-byte read by symbolic bytes.
